@@ -128,6 +128,13 @@ def gen_graph(r, opts):
     elif shape == "fanout":
         for i in range(1, n):
             deps["main"].append(names[i])
+    elif shape == "idlefan":
+        # main imports modules it never touches: nothing but the entry module's final join waits
+        # for their analysis threads; below them an ordinary DAG
+        k = r.range(1, min(3, n - 1))
+        for j in range(k + 1, n):
+            i = r.range(1, j - 1)
+            deps[names[i]].append(names[j])
     elif shape == "diamond":
         # main -> m1..m(n-2) -> m(n-1)
         for i in range(1, n - 1):
@@ -193,6 +200,9 @@ def gen_graph(r, opts):
     # idle imports: a module imported but never touched by its importer. Lowering the importer then
     # never joins that module's analysis thread; only the entry module's final join waits for it.
     idle = {m: [] for m in names}
+    if shape == "idlefan":
+        k = sum(1 for j in range(1, len(names)) if not any(names[j] in deps[m] for m in names))
+        idle["main"] = [names[j] for j in range(1, len(names)) if not any(names[j] in deps[m] for m in names)]
     if shape in ("dag", "chain", "diamond", "fanout", "self"):
         for j in range(1, len(names)):
             if r.chance(opts.get("p_idle_import", 0.2)):
@@ -410,8 +420,18 @@ def gen_project(seed, idx, opts=None):
         "idle_imports": any(mods[m].idle for m in names),
         "infer_fail": any(k == "inference" for _, k in errors),
     }
+    # modules reachable from main through imports that are actually used: their top level must
+    # run; a module that is only ever imported idly may be dropped by erg's unused-import elimination
+    used = {m: mods[m].deps + mods[m].cyc for m in names}
+    req, stack = set(), ["main"]
+    while stack:
+        x = stack.pop()
+        if x in req:
+            continue
+        req.add(x)
+        stack.extend(used[x])
     return {
-        "files": files, "graph": graph, "shape": shape, "tags": names,
+        "files": files, "graph": graph, "shape": shape, "tags": names, "tags_required": sorted(req),
         "expect": {"result": total}, "errors": errors, "flags": flags,
     }
 
